@@ -135,7 +135,7 @@ def work(shard, tier):
         inputs += [('registry-probe', 'prefix', x) for x in C.registry_probe_inputs(name, rng, 30 if tier == 'quick' else 400)]
         from vm import c12
         if name in c12.SLICES:
-            inputs += [('date-forced', 'fields', x) for x in c12.date_sources(name, mod, rng, 2 if tier == 'quick' else 20)]
+            inputs += [('date-forced', 'fields', x) for x in c12.date_sources(name, mod, rng, 2 if tier == 'quick' else 20, require_valid=False)]
         # payload sweep: numbers of the right shape with random digits/letters (rare check values, 1-in-100 branches)
         for v0 in nums[:2]:
             for _ in range(120 if tier == 'quick' else 3000):
